@@ -111,10 +111,14 @@ OccVectors(s, r) ==
   IN  { ev \in [1..n -> UNION { s.slots[i].allow : i \in 1..n }] :
           \A i \in 1..n : ev[i] \in OccAllow(s, r, i) }
 
+\* occurrence variations are explored in the plain statement context when the shape has one (the
+\* contexts with jumps vary the surroundings of the chain, not its operands)
+OccCtxs(s) == IF "stmt" \in s.ctxs THEN {"stmt"} ELSE s.ctxs
+
 OccCasesOfRep(s, r) ==
   { [shape |-> s.id, check |-> s.check, effects |-> ev, ctx |-> c,
      occ |-> [mv |-> r.mv, var |-> v, at |-> a]] :
-      v \in r.vars, a \in 1..r.n, ev \in OccVectors(s, r), c \in s.ctxs }
+      v \in r.vars, a \in 1..r.n, ev \in OccVectors(s, r), c \in OccCtxs(s) }
 
 OccCasesOf(s) == UNION { OccCasesOfRep(s, s.reps[j]) : j \in 1..Len(s.reps) }
 
